@@ -262,6 +262,12 @@ def loop_handler(interp, st, env, it):
                 if not T.is_sym(a_) and a_ == 0:
                     raise EngineError("loop-invariant write region")
                 d = T.sub(tt, b_)
+                # hull of the written regions (stride a >= 0): [a*lo + b, a*(hi-1) + b + w); an index outside is untouched
+                if (T.is_sym(tt) or T.is_sym(b_) or T.is_sym(a_)) and (T.is_sym(a_) or a_ > 0) and T.decide(T.ge(a_, 0)) is True:
+                    below = T.lt(tt, T.add(T.mul(a_, lo), b_))
+                    above = T.ge(tt, T.add(T.add(T.mul(a_, T.sub(hi, 1)), b_), w_))
+                    if T.decide(below) is True or T.decide(above) is True:
+                        continue
                 if not T.is_sym(a_) and a_ == 1:
                     ct, r = d, 0
                     if not T.is_sym(w_) and w_ == 1:
@@ -270,14 +276,17 @@ def loop_handler(interp, st, env, it):
                 else:
                     memo = s2.ghost.setdefault("euclid", {})
                     key = (A._key(T.simp(d)) if T.is_sym(d) else A._key(d), A._key(a_))
-                    wq = A.find_quotient(T.simp(d), a_) if T.is_sym(d) and key not in memo else None
+                    wq = A.find_quotient(T.simp(d) if T.is_sym(d) else d, a_) if key not in memo else None
                     if wq is not None:
-                        memo[key] = wq
-                    if key in memo:
+                        ct, r = wq          # explicit witness, valid in the current context only: not memoised here
+                    elif key in memo:
                         ct, r = memo[key]
                     elif not T.is_sym(d) and not T.is_sym(a_):
                         ct, r = d // a_, d % a_
                     else:
+                        import os
+                        if os.environ.get("PYVC_SKDBG"):
+                            print("DBG skolem(loop)", T.simp(d), "stride", a_, "pc", [str(q)[:60] for q in s2.pc][-3:], flush=True)
                         ct = s2.fresh("eq", "Int")
                         r = s2.fresh("er", "Int")
                         s2.add_fact(z3.Implies(T.tz(a_) > 0,
@@ -287,15 +296,28 @@ def loop_handler(interp, st, env, it):
                 if exists is False:
                     continue
                 inner = None
+                # context of the element written by iteration ct: the loop variable equals ct and tt lies in its region
+                # (the value is used under `exists` only and with c := ct, so inline decisions may rely on both)
+                ctx = [c == T.tz(ct)]
+                if exists is not True:
+                    ctx.append(T.tz(exists))
+                T._KEEP.append((ctx[0], ctx[-1]))     # ids of these terms key memo tables: never reused
                 for (pcs, at_p, facts_p) in reversed(per_path):
                     if at_p is None:
                         v = old_at(tt)
                     else:
                         cap = []
                         s2._capture.append(cap)
+                        s2.pc.extend(ctx)
+                        s2.lctx.extend(q.get_id() for q in ctx)
+                        osub = getattr(s2, "idx_subst", None)
+                        s2.idx_subst = list(osub or []) + [(c, T.tz(ct))]
                         try:
                             v = at_p(tt)
                         finally:
+                            s2.idx_subst = osub
+                            del s2.pc[-len(ctx):]
+                            del s2.lctx[-len(ctx):]
                             s2._capture.pop()
                         for f in cap + facts_p:
                             s2.add_fact(_subst(f, c, ct))
